@@ -277,7 +277,38 @@ def r4_3(ctx: Ctx) -> None:
                                 and isinstance(node.func.value, ast.Attribute) and node.func.value.attr == nm \
                                 and isinstance(node.func.value.value, ast.Name) and node.func.value.value.id == "self":
                             mutated.append(f"{m.short}:{node.lineno}")
-            ok = rebound or not mutated or f.classvar and nm.startswith("_registry")
+            # aliases: `self.x = self.NAME` / `self.x = Cls.NAME` / `x = self.NAME` without a copy hands the shared container to an instance
+            # attribute or local; mutating *that* mutates the class-level object
+            aliased: List[str] = []
+            for k in [c] + ix.subclasses(c):
+                for m in k.methods.values():
+                    if isinstance(m.node, ast.Lambda):
+                        continue
+                    alias_names: Set[str] = set()
+                    for node in ast.walk(m.node):
+                        if isinstance(node, (ast.Assign, ast.AnnAssign)) and getattr(node, "value", None) is not None:
+                            v = node.value
+                            if isinstance(v, ast.Attribute) and v.attr == nm and isinstance(v.value, ast.Name) and (v.value.id in ("self", "cls") or v.value.id == c.name):
+                                for t in (node.targets if isinstance(node, ast.Assign) else [node.target]):
+                                    alias_names.add(unparse(t))
+                    if not alias_names:
+                        continue
+                    for k2 in [c] + ix.subclasses(c):
+                        for m2 in k2.methods.values():
+                            if isinstance(m2.node, ast.Lambda):
+                                continue
+                            for node in ast.walk(m2.node):
+                                tgt = None
+                                if isinstance(node, ast.Call) and isinstance(node.func, ast.Attribute) and node.func.attr in MUTATING_METHODS:
+                                    tgt = unparse(node.func.value)
+                                elif isinstance(node, (ast.Assign, ast.AugAssign)):
+                                    for t in (node.targets if isinstance(node, ast.Assign) else [node.target]):
+                                        if isinstance(t, ast.Subscript):
+                                            tgt = unparse(t.value)
+                                if tgt in alias_names and (tgt.startswith("self.") or m2 is m):
+                                    aliased.append(f"{m2.short}:{node.lineno} mutates `{tgt}` (= the class-level `{nm}`, assigned without a copy in {m.short})")
+            mutated += aliased
+            ok = rebound and not aliased or not mutated or f.classvar and nm.startswith("_registry")
             if f.classvar and nm in ("_registry",):
                 ok = True
             ctx.record("R4.3", f"{c.path}::{c.short}::class-level mutable `{nm}`", f"{c.path}:{f.node.lineno}", ok,
